@@ -423,14 +423,16 @@ def default_init_params(output_min, output_max):
   if output_min is not None:
     init_min = output_min
   elif output_max is not None:
-    init_min = min(0.0, output_max)
+    # Keep the range non-empty when the only bound is not above 0.
+    init_min = 0.0 if output_max > 0.0 else output_max - 1.0
   else:
     init_min = 0.0
 
   if output_max is not None:
     init_max = output_max
   elif output_min is not None:
-    init_max = max(1.0, output_min)
+    # Keep the range non-empty when the only bound is not below 1.
+    init_max = 1.0 if output_min < 1.0 else output_min + 1.0
   else:
     init_max = 1.0
 
